@@ -243,7 +243,12 @@ func Weights(fixed []float64) []float64 {
 			}
 		}
 	default:
-		rest := (1 - sum) / float64(n-nf)
+		// fixed weights that add up to 100% on paper may sum to a hair less than 1: nothing is left then
+		rem := 1 - sum
+		if rem < 1e-9 {
+			rem = 0
+		}
+		rest := rem / float64(n-nf)
 		for i, f := range fixed {
 			if f > 0 {
 				out[i] = f
